@@ -90,12 +90,15 @@ pub const NAMES: [&str; 8] = ["p0", "p1", "p2", "p3", "p4", "p5", "p6", "p7"];
 pub struct GModel {
     pub g: Arc<Graph>,
     pub panic_armed: Arc<AtomicBool>,
+    /// how many times `within_boundary` answered true (once per initial state and per generated
+    /// successor): the number of states the checker generated, counted on the model's side
+    pub generated: Arc<std::sync::atomic::AtomicUsize>,
 }
 
 impl GModel {
     pub fn new(g: Graph) -> Self {
         let armed = g.panic.is_some();
-        GModel { g: Arc::new(g), panic_armed: Arc::new(AtomicBool::new(armed)) }
+        GModel { g: Arc::new(g), panic_armed: Arc::new(AtomicBool::new(armed)), generated: Arc::new(std::sync::atomic::AtomicUsize::new(0)) }
     }
     pub fn maybe_panic(&self, site: PanicSite) {
         if self.g.panic.as_ref() == Some(&site) {
@@ -154,7 +157,11 @@ impl Model for GModel {
     }
     fn within_boundary(&self, s: &u16) -> bool {
         self.maybe_panic(PanicSite::Boundary(*s));
-        self.g.in_boundary(*s)
+        let inb = self.g.in_boundary(*s);
+        if inb {
+            self.generated.fetch_add(1, Ordering::Relaxed);
+        }
+        inb
     }
     fn properties(&self) -> Vec<Property<Self>> {
         self.g
